@@ -366,3 +366,31 @@ func HarnessC02Relay(a []int) {
 	verifAssert("C02.relay.same_value", c02ServiceEqual(v1, v2))
 	verifObserve("len2", len(b2))
 }
+
+func init() {
+	verifHarnesses["HarnessC02Indications"] = HarnessC02Indications
+}
+
+// HarnessC02Indications: routing-lost and routing-busy indications have no encoder; their wire
+// form is written here from the KNXnet/IP specification (service 0x0531: structure length,
+// device state, 16-bit lost count; service 0x0532: structure length, device state, 16-bit wait
+// time in ms, 16-bit control) and must decode to the right type with the right field values.
+func HarnessC02Indications(a []int) {
+	state, hi, lo := nondetU8(), nondetU8(), nondetU8()
+	c1, c0 := nondetU8(), nondetU8()
+	var srv Service
+	lost := []byte{6, 0x10, 0x05, 0x31, 0, 10, 4, state, hi, lo}
+	n, err := Unpack(lost, &srv)
+	verifAssert("C02.ind.lost_decodes", err == nil && n == 10)
+	rl, ok := srv.(*RoutingLost)
+	verifAssert("C02.ind.lost_type", ok)
+	verifAssert("C02.ind.lost_fields", uint8(rl.Status) == state && rl.Count == uint16(hi)<<8|uint16(lo))
+	busy := []byte{6, 0x10, 0x05, 0x32, 0, 12, 6, state, hi, lo, c1, c0}
+	n, err = Unpack(busy, &srv)
+	verifAssert("C02.ind.busy_decodes", err == nil && n == 12)
+	rb, ok := srv.(*RoutingBusy)
+	verifAssert("C02.ind.busy_type", ok)
+	verifAssert("C02.ind.busy_fields", uint8(rb.Status) == state && int64(rb.WaitTime) == int64(uint16(hi)<<8|uint16(lo))*1000000 && rb.Control == uint16(c1)<<8|uint16(c0))
+	verifObserve("wait", int64(rb.WaitTime))
+	verifCover("C02.ind.end")
+}
